@@ -662,7 +662,7 @@ class InvariantCall(FnSpec):
         st, k = c.pre, c.ref("cls")
         inv = attr(st, c.ref("self"), "_invariant")
         lists = z3.And([z3.Implies(rhas(st, k, d), z3.And(TY(rget(st, k, d)) == T_LIST, rget(st, k, d) > 2, rget(st, k, d) < st.ctr)) for d in DUNDERS])
-        return [("decorator.initialised", z3.Implies(self.en(c), z3.And(inv != NONE, inv < st.ctr))),
+        return [("decorator.initialised", z3.Implies(self.en(c), z3.And(inv != NONE, inv < st.ctr, ISINST(inv, clsref("Invariant"))))),
                 ("enabled_is_a_bool", z3.Or(attr(st, c.ref("self"), "enabled") == TRUE, attr(st, c.ref("self"), "enabled") == FALSE)),
                 # C17's scope: a class created by DBCMeta owns every invariant list it can look up (established by the
                 # metaclass); a plain class shares the lists of a plain base by documented design and is outside the claim
